@@ -100,6 +100,13 @@ def supportY (m _n : Int) (dx : Rat) : Rat := (m : Rat) * dx
 /-- `fourier_resample(f, zoom)`: output length of an axis of length `len` zoomed by `z` (`int(len * z)`) -/
 def resampleOut (len : Int) (z : Rat) : Rat := pyTruncRat ((len : Rat) * z)
 
+/-- `uniform_cart_to_polar(x, y, data)` returns an array with phi along axis 0 (`len(y)` samples) and rho along axis 1
+(`len(x)` samples, starting at radius 0) -/
+def polarRhoAxis : Int := 1
+def polarPhiAxis : Int := 0
+def polarRhoLen (_m n : Int) : Int := n
+def polarPhiLen (m _n : Int) : Int := m
+
 /-! ## executable forms used only by the driver (index maps as lists, argmin over exact rationals) -/
 
 /-- first index of a minimal `|v k|`, `0 ≤ k < len` (what `np.argmin(abs(v))` returns on exact data) -/
